@@ -61,6 +61,9 @@ type FuncContract struct {
 	Effects  []*Clause // ghost effects: "effect run(self.metadata)" etc.
 	Assume   []*Clause
 	Opts     map[string]string
+	Lets     map[string]*CExpr
+	LetOrder []string
+	Probes   []*Clause
 	Where    string
 	IsIface  bool
 	Params   []string // optional explicit parameter names (for external functions)
@@ -99,7 +102,7 @@ func NewContracts() *Contracts {
 
 var clauseKeywords = map[string]bool{"requires": true, "ensures": true, "modifies": true, "loop": true, "mode": true, "arith": true,
 	"nopanic": true, "monitor": true, "trusted": true, "pure": true, "property": true, "invariant": true, "guarded_by": true,
-	"uses": true, "ghost": true, "effect": true, "assume": true, "inline": true, "opt": true, "params": true}
+	"uses": true, "ghost": true, "effect": true, "assume": true, "inline": true, "opt": true, "params": true, "let": true, "probe": true}
 
 func (cs *Contracts) LoadFile(path string) error {
 	data, err := os.ReadFile(path)
@@ -266,6 +269,32 @@ func (cs *Contracts) LoadFile(path string) error {
 			case "opt":
 				k, v := splitWord(rest)
 				curF.Opts[k] = v
+			case "let":
+				k := strings.Index(rest, "=")
+				if k < 0 {
+					return fmt.Errorf("%s: let name = expr", where)
+				}
+				name := strings.TrimSpace(rest[:k])
+				ex, err := ParseCExpr(strings.TrimSpace(rest[k+1:]))
+				if err != nil {
+					return fmt.Errorf("%s: %v", where, err)
+				}
+				if curF.Lets == nil {
+					curF.Lets = map[string]*CExpr{}
+				}
+				curF.Lets[name] = ex
+				curF.LetOrder = append(curF.LetOrder, name)
+			case "probe":
+				k := strings.Index(rest, ":")
+				if k < 0 {
+					return fmt.Errorf("%s: probe name: expr", where)
+				}
+				cl, err := mkClause("probe", rest[k+1:], where)
+				if err != nil {
+					return err
+				}
+				cl.Label = strings.TrimSpace(rest[:k])
+				curF.Probes = append(curF.Probes, cl)
 			case "requires", "ensures", "assume":
 				cl, err := mkClause(word, rest, where)
 				if err != nil {
